@@ -36,6 +36,10 @@ def run(tier: str) -> int:
         ]
     for f in fams:
         replay.run_family(rep, f, "sem", modes)
+    # runtime side (code -> spec): the checkpoint/ok/restore calls of real parses are a behaviour of CheckpointState
+    from . import c05state  # noqa: PLC0415
+
+    c05state.run(rep, thorough)
     rep.rule = (
         "grammars: r = { SETUP ~ MID ~ PROBE }, MID = each of the 11 stack terminals (alone: family stack1, complete, printed with and without redundant parentheses; in two-element sequences: family stack) "
         "in each of 13 backtracking contexts, 3 setups x 4 probes; family stackdeep: an inner construct that commits stack changes nested in an outer alternative / optional / predicate that then fails, "
